@@ -108,7 +108,7 @@ Print Assumptions C14_plus_epoch_refuted_before_fix.
 (* ---- relative forms: EVERY non-empty sequence of (count, unit) items, any order and multiplicity,
    both signs, with and without '@' *)
 (* string_wdhms_to_duration on the rendered text, with the exact guards: a count above i64::MAX exits;
-   count*unit above TimeDelta::MAX seconds is "not parseable"; the sum above TimeDelta::MAX panics;
+   count*unit above TimeDelta::MAX seconds, or the sum above TimeDelta::MAX, is "not parseable";
    a unit that occurs several times keeps its LAST count (eff) *)
 Theorem C14_relative_duration_universal :
   forall at_ neg items,
@@ -163,11 +163,19 @@ Example C14_relative_guards_on_the_boundary :
   rel_dur false false [([9;2;2;3;3;7;2;0;3;6;8;5;4;7;7;5]%N, US)] = DurOk 9223372036854775 false
   /\ rel_dur false false [([9;2;2;3;3;7;2;0;3;6;8;5;4;7;7;6]%N, US)] = DurNone
   /\ rel_dur false false [([9;2;2;3;3;7;2;0;3;6;8;5;4;7;7;5;8;0;8]%N, US)] = DurExit
-  /\ rel_dur false true [([9;2;2;3;3;7;2;0;3;6;8;5;4;7;7;5]%N, US); ([1]%N, UM)] = DurExit
+  /\ rel_dur false true [([9;2;2;3;3;7;2;0;3;6;8;5;4;7;7;5]%N, US); ([1]%N, UM)] = DurNone
   /\ rel_dur true false [([1;5;2;5;0;2;8;4;4;5;2]%N, UW)] = DurOk (15250284452 * 604800) true
   /\ rel_dur true false [([1;5;2;5;0;2;8;4;4;5;3]%N, UW)] = DurNone.
 Proof. exact relative_guards. Qed.
 Print Assumptions C14_relative_guards_on_the_boundary.
+
+(* the code before the repair (the five TimeDelta values added with `+`): the sum overflow panicked *)
+Theorem C14_sum_overflow_panic_refuted_before_fix :
+  wdhms_gen dur_at dur_plus dur_minus dur_units dur_anchor_start dur_anchor_end true (cs "+9223372036854775s1m") = DurExit
+  /\ m_wdhms (cs "+9223372036854775s1m") = DurNone
+  /\ rel_dur_gen true false false [([9;2;2;3;3;7;2;0;3;6;8;5;4;7;7;5]%N, US); ([1]%N, UM)] = DurExit.
+Proof. exact sum_overflow_before_fix. Qed.
+Print Assumptions C14_sum_overflow_panic_refuted_before_fix.
 
 Theorem C14_at_relative :
   forall a rel tz now x d,
